@@ -755,6 +755,26 @@ def _final_else(f):
 
 
 # ------------------------------------------------------------------------------------------
+def _alpha_gens(text):
+    """`{T(x) | x in S; ...}`: bound variables are renamed by order of appearance inside each generator and the generators
+    re-sorted, so that two descriptions that differ only in the names of their bound variables compare equal"""
+    import re
+
+    def one(chunk):
+        names = []
+        for m in re.finditer(r"\b([A-Za-z_]\w*) in ", chunk):
+            if m.group(1) not in names:
+                names.append(m.group(1))
+        for i, n in enumerate(names):
+            chunk = re.sub(rf"\b{re.escape(n)}\b", f"\u03b2{i}", chunk)
+        return chunk
+
+    def block(m):
+        return "{" + "; ".join(sorted(one(c) for c in m.group(1).split("; "))) + "}"
+
+    return re.sub(r"\{([^{}]*)\}", block, text)
+
+
 def r2_6(prog, rep):
     """expansion semantics: abstract interpretation of every overload in the term-set domain vs. the documented algebra"""
     from ..algebra import Summariser
@@ -777,8 +797,8 @@ def r2_6(prog, rep):
         if outs is None:
             rep.bad("R2.6", where, fnq, construct, f"{L} has no {method}")
             continue
-        got = sorted({(" & ".join(c) or "-", S.normal(v)) for c, v in outs})
-        want = sorted(want)
+        got = sorted({(" & ".join(c) or "-", _alpha_gens(S.normal(v))) for c, v in outs})
+        want = sorted((c, _alpha_gens(v)) for c, v in want)
         if got == want:
             rep.ok("R2.6", where, fnq, construct, "; ".join(f"[{c}] {v}" for c, v in got))
         else:
